@@ -62,6 +62,9 @@ type C13Sc struct {
 	// Second: another client of the same process dials a conformant server between the first client's dial and
 	// its follow-up request (state shared between clients must not change what the first one sends)
 	Second *C13Second `json:"second,omitempty"`
+	// Reconnect: the scripted server closes the connection right after its first ordinary reply; a second
+	// follow-up request then travels on a re-dialled connection and must carry the same adopted version
+	Reconnect bool `json:"reconnect,omitempty"`
 }
 
 type C13Second struct {
@@ -86,6 +89,7 @@ func genC13(g *simrt.Tape, tier string) any {
 			sc.Second.Client = 31
 		}
 	}
+	sc.Reconnect = !sc.Real && g.Draw(3) == 0
 	sc.Order = g.Draw(120)
 	sc.Chunk = []int{simnet.ChunkMax, simnet.ChunkRandom, simnet.ChunkByte}[g.Draw(3)]
 	if g.Draw(3) == 0 {
@@ -118,6 +122,14 @@ func c13Grid(tier string) []*C13Sc {
 				out = append(out, &C13Sc{Client: c, Server: 31, Beh: b, Enforce: e, FollowUp: true, Clone: true})
 			}
 			out = append(out, &C13Sc{Client: c, Server: 0, Real: true, Enforce: e, FollowUp: true})
+		}
+	}
+	for c := 1; c < 32; c += 3 {
+		for srv := 1; srv < 32; srv += 2 {
+			out = append(out, &C13Sc{Client: c, Server: srv, Beh: behConformant, Enforce: -1, FollowUp: true, Reconnect: true, Clone: true})
+		}
+		for e := 0; e < 5; e++ {
+			out = append(out, &C13Sc{Client: c, Server: 31, Beh: behConformant, Enforce: e, FollowUp: true, Reconnect: true})
 		}
 	}
 	// default-set clients, alone and followed by a second default-set client against a narrower server
@@ -176,6 +188,13 @@ func execC13(x *X, scAny any) {
 	var seen []kmip.ProtocolVersion // header versions of non-discovery requests
 
 	csc := &ClientSc{Prop: "C13", Chunk: sc.Chunk}
+	if sc.Reconnect {
+		// request #0 is the discovery exchange (when there is one), the next one is the first follow-up
+		csc.Behav = []ReqBehav{{}, {CloseAfter: true}, {}, {}, {}, {}, {}, {}}
+		if sc.Enforce >= 0 {
+			csc.Behav = []ReqBehav{{CloseAfter: true}, {}, {}, {}, {}, {}, {}, {}}
+		}
+	}
 	w := newClientWorld(x, csc)
 	w.loose = false
 	w.respond = func(w *clientWorld, req *kmip.RequestMessage, connIdx int) *kmip.ResponseMessage {
@@ -283,6 +302,15 @@ func execC13(x *X, scAny any) {
 			if sc.FollowUp {
 				nFollow++
 				_, followErr = cl.Request(context.Background(), &payloads.ActivateRequestPayload{UniqueIdentifier: "follow"})
+				if sc.Reconnect && followErr == nil {
+					// the call that notices the closed connection may fail (C11 allows that); the one after it travels
+					// on a fresh connection. What matters here is the version every request that reaches the server carries.
+					for i := 0; i < 2; i++ {
+						if _, err := cl.Request(context.Background(), &payloads.ActivateRequestPayload{UniqueIdentifier: "follow-after-reconnect"}); err == nil {
+							break
+						}
+					}
+				}
 			}
 			if sc.Clone {
 				c2, err := cl.Clone()
@@ -418,7 +446,7 @@ func execC13(x *X, scAny any) {
 		}
 	}
 	second.judge(x, sc)
-	if followErr == nil && cloneErr == nil && len(seen) != nFollow {
+	if followErr == nil && cloneErr == nil && len(seen) != nFollow && !sc.Reconnect {
 		x.Reportf("C13.harness", "seen-count", "%s: %d follow-up requests succeeded but the server saw %d", cell, nFollow, len(seen))
 	}
 }
